@@ -9,8 +9,15 @@ Oracles (on the implementation alone):
   * rank       : sum_i C(c_i, i) == index  (positions counted from the small end)
   * successor  : out(index+1) is the lexicographic successor of out(index) among descending k-tuples
   * exhaustive : for small n all C(n,k) outputs are pairwise distinct, ascending, and are all k-subsets
-  * call site  : the triples `dbal_fast_gauss_scoring_vectorized` actually indexes its arrays with are pairwise
-                 distinct, in range, min(C(n,3), max_combos) many, and are ALL triples when the budget covers them
+  * call site  : the triples `dbal_fast_gauss_scoring_vectorized` actually indexes its arrays with (read off recording
+                 subclasses of ALL THREE input arrays, so also after the python loop over the unranking function has been
+                 replaced by something else) are pairwise distinct, in range, min(C(n,3), max_combos) many, the same for
+                 distances / predictions / variances, and are ALL triples when the budget covers them; no index outside
+                 [0, C(n,3)) is unranked and rng.choice is not given a larger population; budgets <, =, > C(n,3); n_thetas up
+                 to 3000 (C(n,3) > 2^31); a generator whose with-replacement draws are constant (a legitimate outcome);
+                 and without any instrumentation: unit distances/variances give log(3 K) - E/2 log 3.
+Tie of the call site: `unrank.callsite n max_combos <recorded draw>` (Model/UnrankCallsite.lean, the object of
+`C15_callsite`) must reproduce the population and size rng.choice received and the observed triples, in order.
 """
 import itertools
 import math
@@ -25,7 +32,9 @@ RULE = ("A: every index of every (n,k), n <= Nexh, k <= min(n,5) (plus k = n for
         "(mostly 3; a few (n,k) with C(n,k) far beyond 2^64) the indices 0, C(n,k)-1, C(m,k)-1/C(m,k)/C(m,k)+1 for boundary values m, second-level boundaries "
         "C(a,k)+C(b,k-1)+-1 and uniform random indices, each together with its successor index, passed as python int or "
         "numpy.int64 (what the call site passes); C: malformed arguments (k > n, index >= C(n,k), negative index) for the tie "
-        "only; D: the production call site with a recording distance matrix. Non-trivial: k >= 2 and C(n,k) >= 3.")
+        "only; D: the production call site observed through recording input arrays and a recording generator: n_thetas 3..16 with budgets "
+        "1, C/2, C-1, C, C+1, 2C, 5000, n_thetas 32/33 around the default budget 5000, n_thetas 60..3000 with budgets 50..5000 (sub-sampling), "
+        "a third of them with a generator whose with-replacement draws are constant; plus uninstrumented unit-weight runs. Non-trivial: k >= 2 and C(n,k) >= 3.")
 
 
 def rank(c):
@@ -157,32 +166,82 @@ def sample_indices(rng, n, k, budget):
     return sorted(i for i in s if 0 <= i < total)
 
 
-class RecordingMatrix(np.ndarray):
-    """distance matrix that records the fancy-index keys it is read with"""
+class RecordingArray(np.ndarray):
+    """input array that records the integer index arrays it (or anything derived from it by ufuncs / views, e.g.
+    `~np.isnan(variances)`, `np.nan_to_num(variances)`) is fancy-indexed with"""
 
-    def __new__(cls, arr):
+    def __new__(cls, arr, log):
         obj = np.asarray(arr).view(cls)
-        obj.keys = []
+        obj.log = log
         return obj
 
     def __array_finalize__(self, obj):
-        self.keys = getattr(obj, "keys", [])
+        self.log = getattr(obj, "log", None)
 
     def __getitem__(self, key):
-        if isinstance(key, tuple) and len(key) == 2 and all(isinstance(x, np.ndarray) for x in key):
-            self.keys.append((np.array(key[0]), np.array(key[1])))
+        if self.log is not None and isinstance(key, tuple):
+            arrs = []
+            for x in key:
+                if isinstance(x, (list, tuple)):
+                    x = np.asarray(x)
+                if isinstance(x, np.ndarray) and x.dtype.kind in "iu":
+                    arrs.append(np.array(x, dtype=np.int64).ravel())
+            if arrs:
+                self.log.append(arrs)
         return np.asarray(super().__getitem__(key))
 
 
-def callsite_case(res, gd, n_thetas, max_combos, seed):
-    case = {"kind": "callsite", "n_thetas": n_thetas, "max_combos": max_combos, "seed": seed}
+class RecGen(np.random.Generator):
+    """a real numpy Generator that records `choice` and, when `adversarial`, returns for every WITH-replacement draw
+    (`integers`, `choice(replace=True)`, `random`) a constant sample -- a legitimate outcome of such a draw, under which
+    code that relies on 'collisions are unlikely' uses the same triple repeatedly.  `choice(replace=False)`, `permutation`,
+    `shuffle` are untouched."""
+
+    def __new__(cls, seed, adversarial=False):
+        return super().__new__(cls, np.random.PCG64(seed))
+
+    def __init__(self, seed, adversarial=False):
+        super().__init__(np.random.PCG64(seed))
+        self.adv = adversarial
+        self.choices = []
+        self.other = []
+
+    def choice(self, a, size=None, replace=True, p=None, axis=0, shuffle=True):
+        out = super().choice(a, size=size, replace=replace, p=p, axis=axis, shuffle=shuffle)
+        if self.adv and replace and isinstance(out, np.ndarray) and out.size:
+            out = np.full_like(out, out.flat[0])
+        self.choices.append({"a": a if isinstance(a, (int, np.integer)) else None, "size": size, "replace": bool(replace),
+                             "out": [int(x) for x in np.asarray(out).ravel()] if np.asarray(out).dtype.kind in "iu" else None})
+        return out
+
+    def integers(self, low, high=None, size=None, dtype=np.int64, endpoint=False):
+        out = super().integers(low, high, size=size, dtype=dtype, endpoint=endpoint)
+        self.other.append("integers")
+        if self.adv and isinstance(out, np.ndarray) and out.size:
+            out = np.full_like(out, out.flat[0])
+        return out
+
+    def random(self, size=None, dtype=np.float64, out=None):
+        o = super().random(size=size, dtype=dtype, out=out)
+        self.other.append("random")
+        if self.adv and isinstance(o, np.ndarray) and o.size:
+            o[...] = o.flat[0]
+        return o
+
+
+def callsite_case(res, gd, n_thetas, max_combos, seed, adversarial=False, tie=None):
+    """run the production kernel and observe the triples it REALLY uses: the index arrays its three input arrays are read
+    with (whatever produced them -- the python loop over get_combination_at_sorted_index or any replacement)"""
+    case = {"kind": "callsite", "n_thetas": n_thetas, "max_combos": max_combos, "seed": seed, "adversarial": bool(adversarial)}
     nprng = np.random.default_rng(seed)
-    n_plates, E = 2, 3
-    preds = nprng.normal(size=(n_plates, n_thetas, E))
-    var = nprng.uniform(0.5, 2.0, size=(n_plates, n_thetas, E))
+    n_plates, E = (2, 3) if n_thetas <= 64 else (1, 1)
+    log_p, log_v, log_d = [], [], []
+    preds = RecordingArray(nprng.normal(size=(n_plates, n_thetas, E)), log_p)
+    var = RecordingArray(nprng.uniform(0.5, 2.0, size=(n_plates, n_thetas, E)), log_v)
     d = nprng.uniform(0.1, 1.0, size=(n_thetas, n_thetas))
     d = (d + d.T) / 2
-    dm = RecordingMatrix(d)
+    dm = RecordingArray(d, log_d)
+    rng = RecGen(seed, adversarial)
     calls = []
     orig = gd.get_combination_at_sorted_index
 
@@ -193,7 +252,7 @@ def callsite_case(res, gd, n_thetas, max_combos, seed):
 
     gd.get_combination_at_sorted_index = rec
     try:
-        scores = gd.dbal_fast_gauss_scoring_vectorized(preds, var, dm, nprng, max_combos=max_combos)
+        scores = gd.dbal_fast_gauss_scoring_vectorized(preds, var, dm, rng, max_combos=max_combos)
     except Exception as e:  # noqa
         res.fail("scoring raises", case, "%s: %s" % (type(e).__name__, e), "scores", signature="C15:callsite-raises")
         return
@@ -202,32 +261,82 @@ def callsite_case(res, gd, n_thetas, max_combos, seed):
     res.evaluations += 1
     total = math.comb(n_thetas, 3)
     want_n = min(total, max_combos)
-    keys = dm.keys
-    if len(keys) != 3:
-        res.notes.append("call site reads the distance matrix %d times (expected 3): triples taken from the recorded calls" % len(keys))
-        triples = [c[3] for c in calls]
-    else:
-        (a1, b1), (a2, b2), (a3, b3) = keys
+
+    # ---- what was unranked (when the code goes through the repo's unranking function at all) ------------------
+    for (index, n, k, out) in calls:
+        if n != n_thetas or k != 3:
+            res.fail("call site unranks with other (n,k) than (n_thetas,3)", case, {"n": n, "k": k}, {"n": n_thetas, "k": 3}, signature="C15:callsite-args")
+            return
+        if not (0 <= index < total):
+            res.fail("call site unranks an index outside [0, C(n,3)) (the function then repeats the last triple)", case,
+                     {"index": index, "C(n,3)": total, "out": list(out)}, "0 <= index < C(n,3)", signature="C15:callsite-index")
+            return
+    for ch in rng.choices:
+        if ch["a"] is not None and int(ch["a"]) > total:
+            res.fail("rng.choice draws from a population larger than the C(n,3) valid indices", case,
+                     {"population": int(ch["a"]), "size": ch["size"]}, {"population": total}, signature="C15:callsite-population")
+            return
+
+    # ---- the triples: read off the distance matrix keys, cross-checked with the keys of predictions / variances -----
+    triples = None
+    how = None
+    dkeys = [k for k in log_d if len(k) == 2 and len(k[0]) == len(k[1])]
+    if len(dkeys) == 3:
+        (a1, b1), (a2, b2), (a3, b3) = dkeys
         # (idx1,idx2), (idx2,idx3), (idx1,idx3)
         if not (np.array_equal(a1, a3) and np.array_equal(b1, a2) and np.array_equal(b2, b3)):
             res.fail("distance matrix is not read at the three pairs of one triple", case,
-                     {"keys": [[x.tolist()[:5] for x in kk] for kk in keys]}, "(i,j),(j,l),(i,l)", signature="C15:callsite-pairs")
+                     {"keys": [[x.tolist()[:5] for x in kk] for kk in dkeys]}, "(i,j),(j,l),(i,l)", signature="C15:callsite-pairs")
             return
-        triples = [(int(i), int(j), int(l)) for i, j, l in zip(a1, b1, b2)]
-    obs = {"n_triples": len(triples), "distinct": len(set(triples)), "first": [list(t) for t in triples[:5]]}
+        cols = (a1, b1, b2)
+        triples = [(int(i), int(j), int(l)) for i, j, l in zip(*cols)]
+        how = "distance-matrix"
+        # predictions / variances / mask must be gathered with the same three index arrays
+        for name, lg in (("predictions", log_p), ("variances", log_v)):
+            seen = [k[0] for k in lg if len(k) == 1]
+            for arr in seen:
+                if not any(np.array_equal(arr, c_) for c_ in cols):
+                    res.fail("%s are gathered with an index array that is none of the three columns of the triples used for the distances" % name,
+                             case, {"index_array": arr.tolist()[:8], "columns": [c_.tolist()[:8] for c_ in cols]}, "idx1, idx2 or idx3",
+                             signature="C15:callsite-consistency")
+                    return
+            if seen and not all(any(np.array_equal(arr, c_) for arr in seen) for c_ in cols):
+                res.fail("%s are not gathered at all three members of each triple" % name, case,
+                         {"n_distinct_index_arrays": len(set(a.tobytes() for a in seen))}, "idx1, idx2 and idx3", signature="C15:callsite-consistency")
+                return
+    else:
+        uniq = []
+        for k in log_p + log_v:
+            if len(k) == 1 and not any(np.array_equal(k[0], u) for u in uniq):
+                uniq.append(k[0])
+        if len(uniq) == 3 and len(set(len(u) for u in uniq)) == 1:
+            triples = [tuple(sorted((int(i), int(j), int(l)), reverse=True)) for i, j, l in zip(*uniq)]
+            if any(len(set(t)) != 3 for t in triples):
+                triples = [(int(i), int(j), int(l)) for i, j, l in zip(*uniq)]
+            how = "predictions/variances"
+        elif calls:
+            triples = [c_[3] for c_ in calls]
+            how = "recorded-unranking-calls"
+    if triples is None:
+        res.notes.append("call site: the triples could not be observed (no recognisable fancy indexing, no unranking calls); case %r" % (case,))
+        res.count("callsite.unobserved")
+        return
+    if how != "distance-matrix":
+        res.count("callsite.observed-via-" + how)
+    obs = {"n_triples": len(triples), "distinct": len(set(triples)), "first": [list(t) for t in triples[:5]], "observed_via": how}
     if len(triples) != want_n:
         res.fail("number of triples used differs from min(C(n,3), max_combos)", case, obs, {"n_triples": want_n}, signature="C15:callsite-count")
-        return
-    if len(set(triples)) != len(triples):
-        res.fail("triples used for scoring are not pairwise distinct", case, obs, "pairwise distinct", signature="C15:callsite-distinct")
         return
     for t in triples:
         if check_valid(t, n_thetas, 3):
             res.fail("triple used for scoring is not i>j>l within range", case, dict(obs, bad=list(t)), "n_thetas > i > j > l >= 0",
                      signature="C15:callsite-range")
             return
+    if len(set(triples)) != len(triples):
+        res.fail("triples used for scoring are not pairwise distinct", case, obs, "pairwise distinct", signature="C15:callsite-distinct")
+        return
     if total <= max_combos:
-        allt = set(tuple(reversed(c)) for c in itertools.combinations(range(n_thetas), 3))
+        allt = set(tuple(reversed(c_)) for c_ in itertools.combinations(range(n_thetas), 3))
         if set(triples) != allt:
             res.fail("budget covers all triples but not all triples are used", case,
                      dict(obs, missing=[list(t) for t in sorted(allt - set(triples))[:5]]), "all C(n,3) triples", signature="C15:callsite-all")
@@ -235,14 +344,45 @@ def callsite_case(res, gd, n_thetas, max_combos, seed):
         res.nontrivial.add(("callsite-all", n_thetas, max_combos))
     else:
         res.nontrivial.add(("callsite-sub", n_thetas, max_combos))
-    for (index, n, k, out) in calls:
-        if n != n_thetas or k != 3:
-            res.fail("call site unranks with other (n,k) than (n_thetas,3)", case, {"n": n, "k": k}, {"n": n_thetas, "k": 3}, signature="C15:callsite-args")
-            return
     if not np.all(np.isfinite(scores)):
         res.notes.append("non-finite score at call-site case %r" % (case,))
     res.count("callsite.all" if total <= max_combos else "callsite.sub")
+    res.count("callsite.budget" + ("<" if max_combos < total else "=" if max_combos == total else ">") + "C(n,3)")
+    res.count("callsite.n<=64" if n_thetas <= 64 else "callsite.n<=1000" if n_thetas <= 1000 else "callsite.n<=3000")
+    if adversarial:
+        res.count("callsite.adversarial_generator")
     res.traces_validated += 1
+    # ---- tie with the call-site model: same draw -> same population, size and triples, in order ------------------
+    if tie is not None and len(rng.choices) == 1 and rng.choices[0]["out"] is not None and rng.choices[0]["a"] is not None \
+            and not rng.other and how == "distance-matrix":
+        ch = rng.choices[0]
+        if len(set(ch["out"])) != len(ch["out"]) or any(not (0 <= x < int(ch["a"])) for x in ch["out"]) or len(ch["out"]) != ch["size"]:
+            res.notes.append("numpy's rng.choice(replace=False) contract not met?! case %r" % (case,))
+        tie.append(("unrank.callsite %d %d %s" % (n_thetas, max_combos, ",".join(str(x) for x in ch["out"]) or "-"),
+                    "%d|%d|%s" % (int(ch["a"]), int(ch["size"]), ";".join("%d,%d,%d" % t for t in sorted(triples)) or "-"), case))
+
+
+def blackbox_case(res, gd, n_thetas, max_combos, seed):
+    """no instrumentation at all: with all distances 1, all means 0, all variances 1 and E experiments every triple of
+    three DIFFERENT samples weighs 3 * 3^(-E/2), a 'triple' with a repeated sample weighs 2 * ... or 0: the score must be
+    log(3 K) - E/2 log 3 with K = min(C(n,3), max_combos)"""
+    case = {"kind": "blackbox", "n_thetas": n_thetas, "max_combos": max_combos, "seed": seed}
+    E = 2
+    d = np.ones((n_thetas, n_thetas)) - np.eye(n_thetas)
+    try:
+        sc = gd.dbal_fast_gauss_scoring_vectorized(np.zeros((1, n_thetas, E)), np.ones((1, n_thetas, E)), d,
+                                                   np.random.default_rng(seed), max_combos=max_combos)
+    except Exception as e:  # noqa
+        res.fail("scoring raises", case, "%s: %s" % (type(e).__name__, e), "scores", signature="C15:callsite-raises")
+        return
+    res.evaluations += 1
+    K = min(math.comb(n_thetas, 3), max_combos)
+    want = math.log(3.0 * K) - 0.5 * E * math.log(3.0)
+    if not abs(float(sc[0]) - want) <= 1e-9 * max(1.0, abs(want)):
+        res.fail("score with unit distances/variances is not log(3 K) - E/2 log 3: not K triples of three different samples are used", case,
+                 {"score": float(sc[0]), "implied_K_times_3": math.exp(float(sc[0]) + 0.5 * E * math.log(3.0))}, {"score": want, "K": K},
+                 signature="C15:callsite-blackbox")
+    res.count("callsite.blackbox")
 
 
 def run(ctx, res):
@@ -329,13 +469,32 @@ def run(ctx, res):
 
     # ---------- D. production call site ---------------------------------------------------------
     crng = ctx.subrng("callsite")
-    cs = [(3, 5000), (4, 4), (5, 10), (5, 9), (7, 35), (7, 36), (9, 5000), (12, 220), (12, 100), (30, 50)]
-    for _ in range(ctx.scale(20, 200)):
+    cs_tie = []
+    cs = [(3, 5000), (4, 4), (5, 10), (5, 9), (7, 35), (7, 36), (9, 5000), (12, 220), (12, 100), (30, 50), (33, 5000), (32, 5000), (32, 4960),
+          (3, 1), (4, 3), (6, 19), (6, 20), (6, 21)]
+    for _ in range(ctx.scale(30, 300)):
         n = crng.randint(3, 16)
         t = math.comb(n, 3)
-        cs.append((n, crng.choice([t, t + 1, 5000, max(1, t - 1), max(1, t // 2), 1])))
-    for (n, mc) in cs:
-        callsite_case(res, gd, n, mc, crng.randrange(2 ** 31))
+        cs.append((n, crng.choice([t, t + 1, 5000, max(1, t - 1), max(1, t // 2), 1, 2 * t, crng.randint(1, t + 3)])))
+    # n_thetas in the hundreds and thousands (C(n,3) beyond 2^31 from n = 2346 on): the sub-sampling regime of production
+    big = [(100, 5000), (400, 1500), (1000, 600), (2345, 250), (2400, 300), (3000, 300)]
+    for _ in range(ctx.scale(3, 40)):
+        n = int(round(math.exp(crng.uniform(math.log(60), math.log(3000)))))
+        big.append((n, crng.randint(50, max(60, 200000 // n))))
+    for i, (n, mc) in enumerate(cs + big):
+        callsite_case(res, gd, n, mc, crng.randrange(2 ** 31), adversarial=(i % 3 == 2) or n > 64, tie=cs_tie)
+        if len(res.oracle_failures) >= 20:
+            break
+    for (n, mc) in [(3, 1), (3, 5000), (4, 4), (5, 7), (10, 120), (10, 5000), (12, 100), (33, 5000), (40, 5000), (200, 5000), (1500, 2000)]:
+        blackbox_case(res, gd, n, mc, crng.randrange(2 ** 31))
+    # fewer than three posterior samples: tie only
+    for (n, mc) in [(2, 10), (0, 5), (1, 1)]:
+        try:
+            gd.dbal_fast_gauss_scoring_vectorized(np.zeros((1, n, 1)), np.ones((1, n, 1)), np.zeros((n, n)), np.random.default_rng(0), max_combos=mc)
+            e = "ok"
+        except Exception as ex:  # noqa
+            e = "err:" + type(ex).__name__
+        cs_tie.append(("unrank.callsite %d %d -" % (n, mc), e, {"kind": "callsite-malformed", "n_thetas": n, "max_combos": mc}))
 
     # ---------- tie: generated Lean vs implementation ---------------------------------------------
     drv = ctx.driver
@@ -344,11 +503,25 @@ def run(ctx, res):
         for l, e, g_, m in zip(lines, expect, got, meta):
             if e != g_:
                 res.disagree("C15:unrank:%s" % m[0], {"line": l}, e[:200], g_[:200])
-        res.count("tie.lines", len(lines))
-        res.traces_validated += len(lines)
+        got = drv.ask([t[0] for t in cs_tie])
+        for (l, e, case), g_ in zip(cs_tie, got):
+            # the order in which the kernel lines the triples up is immaterial (C15_callsite speaks of the multiset)
+            parts = g_.split("|")
+            if len(parts) == 3 and parts[2] != "-":
+                try:
+                    parts[2] = ";".join("%d,%d,%d" % t for t in sorted(tuple(int(x) for x in t.split(",")) for t in parts[2].split(";")))
+                    g_ = "|".join(parts)
+                except ValueError:
+                    pass
+            if e != g_:
+                res.disagree("C15:callsite", case, e[:300], g_[:300])
+        res.count("tie.lines", len(lines) + len(cs_tie))
+        res.count("tie.callsite_lines", len(cs_tie))
+        res.traces_validated += len(lines) + len(cs_tie)
     res.sample({"kind": "point", "index": 1000000007, "n": 3000, "k": 3, "out": list(call(fn, 1000000007, 3000, 3))})
     res.sample({"kind": "exhaustive", "n": 5, "k": 2, "out": [list(call(fn, i, 5, 2)) for i in range(10)]})
-    res.sample({"kind": "callsite", "n_thetas": 7, "max_combos": 35})
+    res.sample({"kind": "callsite", "n_thetas": 7, "max_combos": 35, "adversarial": False})
+    res.sample({"kind": "callsite", "n_thetas": 3000, "max_combos": 300, "adversarial": True})
 
 
 def replay(ctx, case, res):
@@ -360,6 +533,8 @@ def replay(ctx, case, res):
     elif kind == "exhaustive":
         exhaustive(res, fn, case["n"], case["k"], [], [], [])
     elif kind == "callsite":
-        callsite_case(res, gd, case["n_thetas"], case["max_combos"], case["seed"])
+        callsite_case(res, gd, case["n_thetas"], case["max_combos"], case["seed"], adversarial=case.get("adversarial", False))
+    elif kind == "blackbox":
+        blackbox_case(res, gd, case["n_thetas"], case["max_combos"], case["seed"])
     else:
         run(ctx, res)
